@@ -25,11 +25,11 @@ cls("ShardsList", relative_path_self="U", number_of_examples="int",
     _validate={"relative_path_self": "check_is_shards_list"})
 
 cls("DatasetStructure", saved_data_description="U", compression="U",
-    examples_per_shard="int", shard_file_type="U", hash_checksum_algorithms="U")
+    examples_per_shard="int", shard_file_type="U", hash_checksum_algorithms="list:U")
 
 # abstract shard writer: nrec = number of records handed to the underlying
 # library writer and accepted (ghost view of _examples / _buffer / tf writer)
-cls("Writer", nrec="int", closed="bool")
+cls("Writer", nrec="int", closed="bool", path="U")
 cls("Shard", shard_info="ref:ShardInfo", dataset_structure="ref:DatasetStructure",
     _dataset_path="U", _shard_writer="optref:Writer")
 cls("ShardProgress", shard="ref:Shard", written_examples="int",
